@@ -84,6 +84,9 @@ def cases(tier, seed):
     for m in families.models():
         if in_fragment(m):
             yield ('S', m)
+    for m in rt.fully_decorated(FMT.fields):
+        if in_fragment(m):
+            yield ('D', m)
     for m in rt.align_models(tier):
         yield ('A', m)
     for m in rt.collision_models():
